@@ -17,7 +17,10 @@ Expressions are nested tuples:
 """
 import sys
 sys.setrecursionlimit(20000)
+import re as _re_mod
 from collections import defaultdict, deque
+
+re_try_branch = _re_mod.compile(r"^<core::(option::Option|result::Result)<.*> as core::ops::Try>::branch$")
 
 from lib_facts import fn_name, place_str
 
@@ -69,6 +72,19 @@ class Flow:
             return ds[0]
         return None
 
+    def mut_borrowed_scalars(self):
+        """Integer / bool locals of which a `&mut` (or `&raw mut`) borrow is taken: they may be updated through it."""
+        if getattr(self, "_mbs", None) is None:
+            out = set()
+            for bb in range(self.b.n):
+                for s_ in self.b.stmts(bb):
+                    if s_["k"] == "assign" and s_["rv"]["k"] in ("ref", "rawptr") and s_["rv"].get("mut") and not s_["rv"]["place"]["p"]:
+                        l = s_["rv"]["place"]["l"]
+                        if self.b.locals[l] in ("usize", "u8", "u16", "u32", "u64", "u128", "isize", "i8", "i16", "i32", "i64", "i128", "bool"):
+                            out.add(l)
+            self._mbs = out
+        return self._mbs
+
     def local_expr(self, local, depth=0):
         key = ("L", local)
         if key in self._memo:
@@ -79,6 +95,8 @@ class Flow:
         cuts0 = getattr(self, "_cuts", 0)
         self._memo[key] = ("multi", local)  # cycle guard
         sd = self.single_def(local)
+        if sd not in (None, "param") and local in self.mut_borrowed_scalars():
+            sd = None      # a counter updated through `&mut local`: its value is not its initialiser
         if sd == "param":
             e = ("param", local)
         elif sd is None:
@@ -104,26 +122,65 @@ class Flow:
             return ("call", fn_name(f["fn"]), args, bb)
         return ("icall", self.operand_expr(f, depth + 1), args, bb)
 
+    def _agg_defs(self, local, depth=0):
+        """All enum-aggregate rvalues that may define `local` (following plain whole-local copies/moves), or None when
+        some definition is anything else."""
+        if depth > 4 or local in self.partial:
+            return None
+        ds = self.defs.get(local, [])
+        if not ds:
+            return None
+        out = []
+        for (bb, idx, kind, node) in ds:
+            if kind == "call" and node["func"]["k"] == "const" and "fn" in node["func"] and \
+                    node["func"]["fn"].get("def") == "core::ops::FromResidual::from_residual" and not node["dest"]["p"]:
+                # `?` leaving with the residual: None for an Option, Err(_) for a Result (payload not tracked)
+                ty = node["dest"].get("ty", "")
+                if ty.startswith("core::option::Option<"):
+                    out.append({"k": "aggregate", "agg": "adt", "adt": "core::option::Option", "variant": "None", "ops": [], "fields": []})
+                    continue
+                if ty.startswith("core::result::Result<"):
+                    out.append({"k": "aggregate", "agg": "adt", "adt": "core::result::Result", "variant": "Err", "ops": [], "fields": []})
+                    continue
+                return None
+            if kind != "assign":
+                return None
+            rv = node["rv"]
+            if rv["k"] == "aggregate" and rv.get("agg") == "adt" and rv.get("variant") is not None:
+                out.append(rv)
+            elif rv["k"] == "use" and rv["op"]["k"] in ("copy", "move") and not rv["op"]["place"]["p"]:
+                sub = self._agg_defs(rv["op"]["place"]["l"], depth + 1)
+                if sub is None:
+                    return None
+                out.extend(sub)
+            else:
+                return None
+        return out
+
     def variant_payload_operand(self, p):
-        """`(_x as V).i` where every definition of _x is an enum aggregate and exactly one of them builds variant V:
-        the operand stored as field i by that definition (and the remaining projection), else None."""
+        """`(_x as V).i` where every definition of _x is an enum aggregate (possibly through whole-local moves) and exactly
+        one of them can be meant: the operand stored as field i by that definition (and the remaining projection), else
+        None.  When several definitions build V, a following `(.. as W).j` selects the one whose field i is itself built
+        as W."""
         pr = p["p"]
         if len(pr) < 2 or pr[0]["k"] != "downcast" or pr[1]["k"] != "field":
             return None
-        ds = self.defs.get(p["l"], [])
-        if not ds or p["l"] in self.partial:
+        ds = self._agg_defs(p["l"])
+        if not ds:
             return None
-        hit = None
-        for (bb, idx, kind, node) in ds:
-            if kind != "assign" or node["rv"]["k"] != "aggregate" or node["rv"].get("agg") != "adt" or node["rv"].get("variant") is None:
-                return None
-            if node["rv"]["variant"] == pr[0]["variant"]:
-                if hit is not None:
-                    return None
-                hit = node["rv"]
-        if hit is None or pr[1]["i"] >= len(hit["ops"]):
+        cands = [rv for rv in ds if rv["variant"] == pr[0]["variant"] and pr[1]["i"] < len(rv["ops"])]
+        if len(cands) > 1 and len(pr) >= 4 and pr[2]["k"] == "downcast":
+            keep = []
+            for rv in cands:
+                op = rv["ops"][pr[1]["i"]]
+                if op["k"] in ("copy", "move") and not op["place"]["p"]:
+                    sub = self._agg_defs(op["place"]["l"])
+                    if sub and any(r2["variant"] == pr[2]["variant"] for r2 in sub):
+                        keep.append(rv)
+            cands = keep
+        if len(cands) != 1:
             return None
-        return hit["ops"][pr[1]["i"]], pr[2:]
+        return cands[0]["ops"][pr[1]["i"]], pr[2:]
 
     def place_expr(self, p, depth=0):
         vp = self.variant_payload_operand(p)
@@ -173,6 +230,12 @@ class Flow:
                     base = ops[idx]
                     elems = elems[1:]
                     continue
+            if base[0] == "call" and len(elems) >= 2 and elems[0] == "@Continue" and elems[1] == ".0" and base[2] and \
+                    re_try_branch.search(base[1] or ""):
+                # `x?` on an Option / Result: the Continue payload is x's Some / Ok payload
+                elems = (("@Some" if "option::Option" in base[1] else "@Ok"), ".0") + tuple(elems[2:])
+                base = base[2][0]
+                continue
             if base[0] == "agg" and elems[0].startswith("@"):
                 # downcast of a known aggregate: keep going if the variant matches
                 if base[1].endswith("::" + elems[0][1:]):
@@ -753,6 +816,31 @@ def _copied_local(stmt):
     return None
 
 
+def _reroot_knowledge(vk, stmt):
+    """Knowledge about locals moved into `_x = move _y` / `_x = Enum::V(move _y, ..)` restated for the new place:
+    facts on `_y...` become facts on `_x...` / `(_x as V).i...`."""
+    import re as _re
+    out = {}
+    if stmt["k"] != "assign" or stmt["place"]["p"]:
+        return out
+    l = stmt["place"]["l"]
+    rv = stmt["rv"]
+    pairs = []
+    if rv["k"] == "use" and rv["op"]["k"] in ("copy", "move") and not rv["op"]["place"]["p"]:
+        pairs.append((rv["op"]["place"]["l"], "_%d" % l))
+    elif rv["k"] == "aggregate" and rv.get("agg") == "adt" and rv.get("variant") and rv.get("adt") and rv["variant"] != rv["adt"].split("::")[-1]:
+        for i, op in enumerate(rv["ops"]):
+            if op["k"] in ("copy", "move") and not op["place"]["p"]:
+                fname = (rv.get("fields") or [str(i)] * (i + 1))[i] if i < len(rv.get("fields") or []) else str(i)
+                pairs.append((op["place"]["l"], "(_%d as %s).%s" % (l, rv["variant"], fname)))
+    for src, new in pairs:
+        pat = _re.compile(r"_%d\b" % src)
+        for p, v in vk.items():
+            if _base_local(p) == "_%d" % src:
+                out[pat.sub(lambda m_: new, p, count=1)] = v
+    return out
+
+
 def _base_local(pstr):
     import re as _re
     m = _re.search(r"_(\d+)", pstr)
@@ -951,6 +1039,13 @@ def flag_search(body, flow, start, stop=(), init=None, max_states=200000):
             vk2 = vk
             if t["k"] == "call" and not t["dest"]["p"]:
                 vk2 = kill(vk, t["dest"]["l"])
+                if t["func"]["k"] == "const" and "fn" in t["func"] and t["func"]["fn"].get("def") == "core::ops::FromResidual::from_residual":
+                    # leaving through `?`: an Option becomes None, a Result becomes Err
+                    ty_ = t["dest"].get("ty", "")
+                    if ty_.startswith("core::option::Option<"):
+                        vk2["_%d" % t["dest"]["l"]] = "None"
+                    elif ty_.startswith("core::result::Result<"):
+                        vk2["_%d" % t["dest"]["l"]] = "Err"
             for s in body.normal_succ(bb):
                 outs.append((s, st, vk2))
         for tgt, st2, vk2 in outs:
@@ -1008,10 +1103,12 @@ def sensitive_paths(body, flow, loop_visits=2, max_paths=200000, start=0):
                     st[l] = st.get(src, BOTH)
                 src_ = _copied_local(s)
                 carried = vk.get("_%d" % src_) if src_ is not None else None
+                rerooted = _reroot_knowledge(vk, s)
                 vk = kill(vk, l)
                 v_ = _assigned_variant(s) or carried
                 if v_ is not None:
                     vk["_%d" % l] = v_
+                vk.update(rerooted)
         t = body.term(bb)
         outs = []
         if t["k"] == "return":
@@ -1052,6 +1149,13 @@ def sensitive_paths(body, flow, loop_visits=2, max_paths=200000, start=0):
             vk2 = vk
             if t["k"] == "call" and not t["dest"]["p"]:
                 vk2 = kill(vk, t["dest"]["l"])
+                if t["func"]["k"] == "const" and "fn" in t["func"] and t["func"]["fn"].get("def") == "core::ops::FromResidual::from_residual":
+                    # leaving through `?`: an Option becomes None, a Result becomes Err
+                    ty_ = t["dest"].get("ty", "")
+                    if ty_.startswith("core::option::Option<"):
+                        vk2["_%d" % t["dest"]["l"]] = "None"
+                    elif ty_.startswith("core::result::Result<"):
+                        vk2["_%d" % t["dest"]["l"]] = "Err"
             succs = body.normal_succ(bb)
             if not succs and t["k"] != "return":
                 out.append(("diverge", path, know))
@@ -1060,6 +1164,8 @@ def sensitive_paths(body, flow, loop_visits=2, max_paths=200000, start=0):
         for tgt, st2, vk2 in outs:
             if cnt.get(tgt, 0) >= loop_visits:
                 continue
+            if body.term(tgt)["k"] == "unreachable" and not body.stmts(tgt):
+                continue      # the compiler's arm for "no such variant": never executed
             c2 = dict(cnt)
             c2[tgt] = c2.get(tgt, 0) + 1
             stack.append((tgt, path + [tgt], know + [vk2], st2, vk2, c2))
@@ -1240,3 +1346,21 @@ def all_arrivals_cross(body, flow, target_bb, edge_pred, loop_visits=2):
             if not crossed:
                 return False, n, path[:i + 1]
     return n > 0, n, None
+
+
+def all_arrivals_visit(body, flow, target_bb, via_bb, loop_visits=2):
+    """`via_bb` dominates `target_bb`, or -- when a join with infeasible arms lies between -- every flag/variant-feasible
+    path that reaches target_bb visited via_bb before (after the previous visit of target_bb)."""
+    if body.dominates(via_bb, target_bb):
+        return True
+    n = 0
+    for kind, path, know in sensitive_paths(body, flow, loop_visits):
+        last_t = -1
+        for i, bb in enumerate(path):
+            if bb != target_bb:
+                continue
+            n += 1
+            if via_bb not in path[last_t + 1:i]:
+                return False
+            last_t = i
+    return n > 0
